@@ -61,6 +61,7 @@ var (
 	flagVerbose = flag.Bool("v", false, "verbose")
 	flagNoEvidence = flag.Bool("noevidence", false, "do not write the evidence file")
 	flagCross   = flag.Int("cross", -1, "number of obligations per harness re-decided by z3 4.8.12 and cvc5 (-1: tier default)")
+	flagFix     = flag.String("fix", "", "restrict harness choices: name=value,name=value (debugging / sharding)")
 	flagTimeBudget = flag.Duration("budget", 0, "wall-clock budget per harness (0: tier default)")
 )
 
@@ -223,6 +224,16 @@ func run() int {
 		fmt.Fprintf(os.Stderr, "gosym: no harness for %s\n", prop)
 		return 2
 	}
+	scratch, err := os.MkdirTemp("", "gosym-gen-")
+	if err != nil {
+		fmt.Fprintln(os.Stderr, "gosym:", err)
+		return 2
+	}
+	defer os.RemoveAll(scratch)
+	if err := addPipeline(files, scratch); err != nil {
+		fmt.Fprintln(os.Stderr, "gosym: INCONCLUSIVE:", err)
+		return 2
+	}
 	var dirs []string
 	for dst := range files {
 		rel, _ := filepath.Rel(filepath.Join(*flagRepo, "lib"), filepath.Dir(dst))
@@ -302,6 +313,15 @@ func run() int {
 				cfg.Limits = sym.DefaultLimits
 			}
 			cfg.Limits.MaxDepth = n
+		}
+		if *flagFix != "" {
+			cfg.Fixed = map[string]string{}
+			for _, kv := range strings.Split(*flagFix, ",") {
+				p := strings.SplitN(kv, "=", 2)
+				if len(p) == 2 {
+					cfg.Fixed[p[0]] = p[1]
+				}
+			}
 		}
 		rep := sym.Explore(cfg)
 		hr := &harnessResult{Spec: hs, Report: rep, KFConfirmed: map[string]string{}, Cross: map[string]int{}}
